@@ -15,6 +15,14 @@ class Ctx(object):
         self.te = TypeEngine(self.index, self.base_datatypes)
         self.cg = CallGraph(self.index, self.te)
         self.fx = Effects(self)
+        self._esc = None
+
+    @property
+    def esc(self):
+        if self._esc is None:
+            from .escapes import Escapes
+            self._esc = Escapes(self)
+        return self._esc
 
 
 def get(root=None):
